@@ -7,7 +7,9 @@ package main
 import (
 	"bytes"
 	"context"
+	"errors"
 	"fmt"
+	"io"
 	"log/slog"
 	"net/url"
 	"os"
@@ -85,6 +87,19 @@ func build(kind string) *env {
 			zapcore.NewCore(enc(), zapcore.Lock(newSink()), zap.DebugLevel),
 			zapcore.NewCore(enc(), zapcore.Lock(newSink()), zap.DebugLevel),
 		)
+	case "teefail": // an earlier branch whose sink fails every write: the later, healthy branch still receives every entry
+		core = zapcore.NewTee(
+			zapcore.NewCore(enc(), failSink{}, zap.DebugLevel),
+			zapcore.NewCore(enc(), zapcore.Lock(newSink()), zap.DebugLevel),
+		)
+	case "teefailmid":
+		core = zapcore.NewTee(
+			zapcore.NewCore(enc(), zapcore.Lock(newSink()), zap.DebugLevel),
+			zapcore.NewCore(enc(), failSink{}, zap.DebugLevel),
+			zapcore.NewCore(enc(), zapcore.Lock(newSink()), zap.DebugLevel),
+		)
+	case "combinefail": // a failing destination inside a combined syncer, ahead of a healthy one
+		core = zapcore.NewCore(enc(), zap.CombineWriteSyncers(failSink{}, newSink()), zap.DebugLevel)
 	case "teebuf":
 		e.buffered = &zapcore.BufferedWriteSyncer{WS: newSink(), Size: 128, Clock: e.clock, FlushInterval: time.Hour}
 		core = zapcore.NewTee(
@@ -94,7 +109,7 @@ func build(kind string) *env {
 	default:
 		panic(mc.ToolErr{Msg: "unknown sink kind " + kind})
 	}
-	e.logger = withBase(kind, zap.New(core, zap.WithClock(e.clock)))
+	e.logger = withBase(kind, zap.New(core, zap.WithClock(e.clock), zap.ErrorOutput(zapcore.AddSync(io.Discard))))
 	return e
 }
 
@@ -190,6 +205,15 @@ func (v yv) MarshalJSON() ([]byte, error) {
 
 // withBase gives the shared logger of the "lockreflect" family a context that
 // already holds a reflected field (the parent encoder then owns a reflection buffer).
+// failSink refuses every write (a destination that is down); it is not one of the sinks that must end up complete.
+type failSink struct{}
+
+func (failSink) Write(p []byte) (int, error) {
+	vsched.Yield()
+	return 0, errors.New("destination down")
+}
+func (failSink) Sync() error { return errors.New("destination down") }
+
 func withBase(kind string, l *zap.Logger) *zap.Logger {
 	if kind == "lockreflect" {
 		return l.With(zap.Reflect("svc", yv{"base"}))
@@ -328,9 +352,15 @@ func main() {
 	progs := []string{"I", "B", "S", "C", "W", "II", "IB", "BI", "SW", "CW", "WI"}
 	singles := []string{"I", "B", "W", "C"}
 	var items []string
-	for _, kind := range []string{"lock", "combine", "combine1", "open", "open1", "buffered", "tee", "teebuf", "lockreflect", "lockconsole", "lockfault"} {
+	for _, kind := range []string{"lock", "combine", "combine1", "open", "open1", "buffered", "tee", "teebuf", "lockreflect", "lockconsole", "lockfault", "teefail", "teefailmid", "combinefail"} {
 		if kind == "lockfault" {
 			for _, pq := range []string{"I;I", "I;B", "I;W", "W;S", "I;I;I", "I;W;C"} {
+				items = append(items, fmt.Sprintf("c04|%s|%d|%s", kind, pre, pq))
+			}
+			continue
+		}
+		if kind == "teefail" || kind == "teefailmid" || kind == "combinefail" {
+			for _, pq := range []string{"I;I", "I;B", "I;W", "W;S", "I;C", "II;I", "I;I;I"} {
 				items = append(items, fmt.Sprintf("c04|%s|%d|%s", kind, pre, pq))
 			}
 			continue
@@ -414,6 +444,7 @@ func main() {
 	run.Assume = []string{
 		"scheduling points at synchronisation operations (locks, pool Get/Put, channel ops) and inside the harness sink; sufficient for data-race-free code (C09)",
 		"2-3 threads, 1-2 log calls each, preemption bound as stated; pool reuse is LIFO with freed buffers poisoned",
+		"sink families: Lock, CombineWriteSyncers (1 and 2 destinations), zap.Open (1 and 2), BufferedWriteSyncer, tee of two cores, tee with a buffered branch, shared loggers with reflected context / console columns rendered by user code / an unencodable field in their history, and destinations that are down: a tee whose first (or middle) branch refuses every write and a combined syncer whose first destination does - the healthy destinations must still receive every entry once, intact and in per-thread order",
 	}
 	run.Finish(map[string]any{
 		"states":                        len(sum.Outcomes),
